@@ -242,3 +242,130 @@ Section RestFull.
       destruct (Nat.ltb_spec l (hL g - (1 + (hL g - hL g)))); [ring|lia].
   Qed.
 End RestFull.
+
+From Dino Require Import Model.ShallowWater.
+
+(** ** (2) shallow water: explicit_terms of Model/ShallowWater.v ([Section SWAssembly], the assembly that
+    [sw_explicit_terms] instantiates at the concrete operators) + implicit_terms of Model/Implicit.v ([sw_implicit_terms])
+    refine the layered shallow-water specification of Model/PrimEqSpec.v in the sense of [primeq_refines_spec]:
+    the modal tendencies are the clipped modal div / curl / laplacian of the analysed specification quantities
+      flux = (zeta + f) (u, v),   pressure_i = sum_j Rm i j pot_j + orography  (Rm i i = 1: the diagonal comes from the
+      implicit term),   kinetic energy,   (u, v) (ref_i + pot_i)  (the ref_i part comes from the implicit term). *)
+Section SWRefine.
+  Context {F : Type} {o : Ops F} {Fc : FieldC o}.
+  Add Field FFsw : (field_c : FieldTh o).
+  Variables W P : Type.
+  Variable toM : (P -> F) -> W -> F.
+  Variable divc curlc : (W -> F) -> (W -> F) -> W -> F.
+  Variable lap clip : (W -> F) -> W -> F.
+  Hypothesis toM_lin : linear toM.
+  Hypothesis divc_lin : linear2 divc.
+  Hypothesis lap_lin : linear lap.
+  Hypothesis clip_lin : linear clip.
+  Variable N : nat.
+  Variable dens : nat -> F.
+  Variable X : P -> @SWCol F.
+  Variable pot dive : nat -> W -> F.            (* modal potential and divergence of the state *)
+  Variable orog : option (W -> F).
+  Variable ref : nat -> F.                      (* ref_potential *)
+  Variable lam : W -> F.                        (* laplacian eigenvalue of the coefficient *)
+  Hypothesis lap_diag : forall x w, lap x w = x w * lam w.
+
+  (** the specification's pressure weights: the code's density ratios (zero diagonal) plus the identity *)
+  Definition sw_Rm (i j : nat) : F := density_ratio dens i j + Sums.delta i j.
+  Definition sw_orog0 (w : W) : F := match orog with Some h => h w | None => 0 end.
+  (** nodal specification quantities at layer r: absolute-vorticity flux, mass flux of the FULL thickness, kinetic energy
+      (all times sec^2: the operators as coded are div / curl of sec^2-scaled components, C05_operators) *)
+  Definition sw_flux_u r (p : P) : F := s_u (X p) r * (s_vort (X p) r + s_f (X p)) * s_sec2 (X p).
+  Definition sw_flux_v r (p : P) : F := s_v (X p) r * (s_vort (X p) r + s_f (X p)) * s_sec2 (X p).
+  Definition sw_mass_u r (p : P) : F := s_u (X p) r * (ref r + s_pot (X p) r) * s_sec2 (X p).
+  Definition sw_mass_v r (p : P) : F := s_v (X p) r * (ref r + s_pot (X p) r) * s_sec2 (X p).
+  Definition sw_kin r (p : P) : F := (s_u (X p) r * s_u (X p) r + s_v (X p) r * s_v (X p) r) * s_sec2 (X p) / (1 + 1).
+
+  Lemma sw_pressure_full r w : (r < N)%nat ->
+    sumn N (fun j => sw_Rm r j * pot j w) + sw_orog0 w
+    = sw_pressure W N dens pot orog r w + 1 * pot r w.
+  Proof.
+    intros Hr. unfold sw_pressure, sw_orog0, sw_Rm. cbv zeta.
+    rewrite (sumn_ext N (fun j => (density_ratio dens r j + Sums.delta r j) * pot j w)
+               (fun j => density_ratio dens r j * pot j w + Sums.delta r j * pot j w)) by (intros; ring).
+    rewrite sumn_add, (sumn_delta_l N r (fun j => pot j w) Hr). destruct orog; ring.
+  Qed.
+
+  Theorem sw_model_refines_spec r w :
+    (r < N)%nat ->
+    (* H_sw_pot_clip: the potential has no content in the clipped total wavenumber *)
+    clip (lap (pot r)) w = lap (pot r) w ->
+    (* H_sw_div_vel: the divergence of the velocity obtained from (vorticity, divergence) is the divergence *)
+    clip (divc (toM (fun p => s_u (X p) r * s_sec2 (X p))) (toM (fun p => s_v (X p) r * s_sec2 (X p)))) w = dive r w ->
+    let imp := sw_implicit_terms (ref r) (lam w) (dive r w, pot r w) in
+    sw_vort_explicit W P toM divc clip X r w + 0
+    = clip (fun w' => - divc (toM (sw_flux_u r)) (toM (sw_flux_v r)) w') w /\
+    sw_div_explicit W P toM curlc lap clip N dens X pot orog r w + fst imp
+    = clip (fun w' => curlc (toM (sw_flux_u r)) (toM (sw_flux_v r)) w'
+                      - lap (fun w2 => sumn N (fun j => sw_Rm r j * pot j w2) + sw_orog0 w2 + toM (sw_kin r) w2) w') w /\
+    sw_pot_explicit W P toM divc clip X r w + snd imp
+    = clip (fun w' => - divc (toM (sw_mass_u r)) (toM (sw_mass_v r)) w') w.
+  Proof.
+    intros Hr Hpc Hdv. cbv zeta. split; [|split].
+    - unfold sw_vort_explicit, sw_flux_u, sw_flux_v, sw_b_u, sw_b_v, sw_total_vorticity. cbv zeta. ring.
+    - unfold sw_div_explicit, sw_implicit_terms. cbv zeta. cbn [fst snd].
+      change (fun p => sw_b_u (X p) r) with (sw_flux_u r). change (fun p => sw_b_v (X p) r) with (sw_flux_v r).
+      change (fun p => sw_e (X p) r) with (sw_kin r).
+      rewrite (lin_comb clip clip_lin
+                 (fun w' => curlc (toM (sw_flux_u r)) (toM (sw_flux_v r)) w'
+                            - lap (fun w2 => sumn N (fun j => sw_Rm r j * pot j w2) + sw_orog0 w2 + toM (sw_kin r) w2) w')
+                 (fun w' => - lap (fun w2 => sw_pressure W N dens pot orog r w2 + toM (sw_kin r) w2) w'
+                            + curlc (toM (sw_flux_u r)) (toM (sw_flux_v r)) w')
+                 (lap (pot r)) (- (1))).
+      2:{ intros w'.
+          rewrite (lin_comb lap lap_lin
+                     (fun w2 => sumn N (fun j => sw_Rm r j * pot j w2) + sw_orog0 w2 + toM (sw_kin r) w2)
+                     (fun w2 => sw_pressure W N dens pot orog r w2 + toM (sw_kin r) w2) (pot r) 1)
+            by (intros w2; rewrite (sw_pressure_full r w2 Hr); ring).
+          ring. }
+      rewrite Hpc, (lap_diag (pot r) w). ring.
+    - unfold sw_pot_explicit, sw_implicit_terms. cbv zeta. cbn [fst snd].
+      change (fun p => sw_g_u (X p) r) with (fun p => s_u (X p) r * s_pot (X p) r * s_sec2 (X p)).
+      change (fun p => sw_g_v (X p) r) with (fun p => s_v (X p) r * s_pot (X p) r * s_sec2 (X p)).
+      rewrite (lin_comb clip clip_lin
+                 (fun w' => - divc (toM (sw_mass_u r)) (toM (sw_mass_v r)) w')
+                 (fun w' => - divc (toM (fun p => s_u (X p) r * s_pot (X p) r * s_sec2 (X p)))
+                                   (toM (fun p => s_v (X p) r * s_pot (X p) r * s_sec2 (X p))) w')
+                 (divc (toM (fun p => s_u (X p) r * s_sec2 (X p))) (toM (fun p => s_v (X p) r * s_sec2 (X p))))
+                 (- ref r)).
+      2:{ intros w'.
+          rewrite (lin2_comb divc divc_lin (toM (sw_mass_u r)) (toM (fun p => s_u (X p) r * s_pot (X p) r * s_sec2 (X p)))
+                     (toM (fun p => s_u (X p) r * s_sec2 (X p)))
+                     (toM (sw_mass_v r)) (toM (fun p => s_v (X p) r * s_pot (X p) r * s_sec2 (X p)))
+                     (toM (fun p => s_v (X p) r * s_sec2 (X p))) (ref r)).
+          - ring.
+          - intros a. apply (lin_comb toM toM_lin). intros p. unfold sw_mass_u. ring.
+          - intros a. apply (lin_comb toM toM_lin). intros p. unfold sw_mass_v. ring. }
+      rewrite Hdv. ring.
+  Qed.
+
+  (** PARTIAL (the balanced jet): if, in addition, the clipped modal operators applied to the ANALYSED nodal specification
+      quantities of the state vanish - which is what the zonal-jet balance theorem [sw_polynomial_jet_steady] says of the
+      CONTINUOUS operators on the continuous fields - then the model's total tendency vanishes on that coefficient.
+      Missing for the full statement: the evaluation homomorphism from the differential ring of the specification to nodal
+      values, and alias-freeness of the transforms on the jet's products (table obligations H_sw_jet_* of the plugin). *)
+  Theorem sw_model_jet_steady_partial r w :
+    (r < N)%nat ->
+    clip (lap (pot r)) w = lap (pot r) w ->
+    clip (divc (toM (fun p => s_u (X p) r * s_sec2 (X p))) (toM (fun p => s_v (X p) r * s_sec2 (X p)))) w = dive r w ->
+    (* H_sw_jet_vort, H_sw_jet_div, H_sw_jet_pot: exactness of the modal operators on the balanced jet *)
+    clip (fun w' => - divc (toM (sw_flux_u r)) (toM (sw_flux_v r)) w') w = 0 ->
+    clip (fun w' => curlc (toM (sw_flux_u r)) (toM (sw_flux_v r)) w'
+                    - lap (fun w2 => sumn N (fun j => sw_Rm r j * pot j w2) + sw_orog0 w2 + toM (sw_kin r) w2) w') w = 0 ->
+    clip (fun w' => - divc (toM (sw_mass_u r)) (toM (sw_mass_v r)) w') w = 0 ->
+    let imp := sw_implicit_terms (ref r) (lam w) (dive r w, pot r w) in
+    sw_vort_explicit W P toM divc clip X r w + 0 = 0 /\
+    sw_div_explicit W P toM curlc lap clip N dens X pot orog r w + fst imp = 0 /\
+    sw_pot_explicit W P toM divc clip X r w + snd imp = 0.
+  Proof.
+    intros Hr Hpc Hdv Hv Hd Hp. cbv zeta.
+    destruct (sw_model_refines_spec r w Hr Hpc Hdv) as (E1 & E2 & E3). cbv zeta in E1, E2, E3.
+    rewrite E1, E2, E3. auto.
+  Qed.
+End SWRefine.
